@@ -1,4 +1,5 @@
 (* C11 — proofs about the reward model (Rewards.v) and the translated emission functions (gen/Pure.v). *)
+From Coq Require Import Sorted.
 From ZV Require Import Prelude GoSem Rewards.
 From ZV.gen Require Import Consts Pure.
 Open Scope Z_scope.
@@ -167,6 +168,17 @@ Proof.
   rewrite Hz, Hq, Hp, Hs, Hl, Hst. repeat split; discriminate.
 Qed.
 
+Lemma mul_sum3_le q a b c : 0 <= q -> a + b + c <= 100 -> q * a + q * b + q * c <= q * 100.
+Proof. intros. nia. Qed.
+Lemma shares3_le q a b c : 0 <= q -> 0 <= a -> 0 <= b -> 0 <= c -> a + b + c <= 100 ->
+  q * a / 100 + q * b / 100 + q * c / 100 <= q.
+Proof.
+  intros Hq Ha Hb Hc Hs. pose proof (mul_sum3_le q a b c Hq Hs) as A.
+  pose proof (Z.mul_nonneg_nonneg q a Hq Ha). pose proof (Z.mul_nonneg_nonneg q b Hq Hb).
+  pose proof (Z.mul_nonneg_nonneg q c Hq Hc).
+  remember (q * a) as a1. remember (q * b) as a2. remember (q * c) as a3. clear - A H H0 H1. lia.
+Qed.
+
 (* the shares of one epoch add up to at most the epoch's emission *)
 Lemma shares_le z p1 p2 p3 p4 m :
   0 <= z -> 0 <= p1 -> 0 <= p2 -> 0 <= p3 -> 0 <= p4 -> p1 + p2 + p3 + p4 <= 100 -> 0 < m ->
@@ -200,16 +212,13 @@ Proof.
   pose proof znn_percentages as Pz. pose proof qsr_percentages as Pq. pose proof mpe_ok as Hm.
   eexists z, q, _, _, _, _, _, _, _.
   split; [exact Hz|]. split; [exact Hq|]. split; [exact Hp|]. split; [exact Hs|]. split; [exact Hl|]. split; [exact Hst|].
-  assert (N : forall a p, 0 <= a -> 0 <= p -> 0 <= a * p / 100) by (intros; apply Z.div_pos; nia).
-  assert (N' : forall a, 0 <= a -> 0 <= a / MomentumsPerEpoch) by (intros; apply Z.div_pos; lia).
+  assert (N : forall a p, 0 <= a -> 0 <= p -> 0 <= a * p / 100).
+  { clear. intros. apply Z.div_pos; [apply Z.mul_nonneg_nonneg; assumption|lia]. }
+  assert (N' : forall a, 0 <= a -> 0 <= a / MomentumsPerEpoch).
+  { clear - Hm. intros. apply Z.div_pos; lia. }
   repeat split; try (apply N; lia); try (apply N'; apply N; lia).
   - apply shares_le; lia.
-  - assert (A : q * StakingQsrRewardPercentage + q * SentinelQsrRewardPercentage + q * LiquidityQsrRewardPercentage <= q * 100) by nia.
-    assert (0 <= q * StakingQsrRewardPercentage) by nia.
-    assert (0 <= q * SentinelQsrRewardPercentage) by nia.
-    assert (0 <= q * LiquidityQsrRewardPercentage) by nia.
-    remember (q * StakingQsrRewardPercentage) as a1. remember (q * SentinelQsrRewardPercentage) as a2.
-    remember (q * LiquidityQsrRewardPercentage) as a3. lia.
+  - apply shares3_le; lia.
 Qed.
 
 (* ------------------------------------------------------------------ sums and the pro-rata split *)
@@ -592,7 +601,7 @@ Proof.
   set (b := z * MomentumProducingZnnRewardPercentage / 100 / MomentumsPerEpoch) in *.
   assert (Hd0 : 0 <= d) by (apply N; lia). assert (Hb0 : 0 <= b) by (apply N; lia).
   pose proof (pillar_bounded st infos ds d b cs Hst Hi Hd Hp Hd0 Hb0 H) as HB.
-  assert (H1 : (d + b) * total_expected st <= (d + b) * MomentumsPerEpoch) by nia.
+  assert (H1 : (d + b) * total_expected st <= (d + b) * MomentumsPerEpoch) by (apply Z.mul_le_mono_nonneg_l; lia).
   assert (H2 : d * MomentumsPerEpoch <= z * DelegationZnnRewardPercentage / 100).
   { unfold d. rewrite Z.mul_comm. apply Z.mul_div_le. lia. }
   assert (H3 : b * MomentumsPerEpoch <= z * MomentumProducingZnnRewardPercentage / 100).
@@ -600,5 +609,438 @@ Proof.
   assert (H4 : z * DelegationZnnRewardPercentage / 100 + z * MomentumProducingZnnRewardPercentage / 100
                <= z * (DelegationZnnRewardPercentage + MomentumProducingZnnRewardPercentage) / 100).
   { rewrite Z.mul_add_distr_l. apply div_add_ge. lia. }
-  nia.
+  rewrite Z.mul_add_distr_r in H1. clear - HB H1 H2 H3 H4. lia.
+Qed.
+
+(* ------------------------------------------------------------------ stake and sentinel *)
+
+Definition two62 : Z := 4611686018427387904.
+Definition time_ok (t : Z) : Prop := 0 <= t < two62.
+
+Ltac split_ifs :=
+  repeat match goal with
+         | |- context [if ?c then _ else _] => let E := fresh "E" in destruct c eqn:E
+         end.
+
+Lemma stake_w_nonneg s e x :
+  time_ok s -> time_ok e -> time_ok (se_start x) -> time_ok (se_revoke x) -> 0 <= se_wamount x ->
+  0 <= stake_w s e x.
+Proof.
+  unfold time_ok, two62. intros Hs He H1 H2 Hw.
+  unfold stake_w, getWeightedStake, MaxInt64, MinInt64. cbv zeta.
+  split_ifs; try lia; rewrite wrapS64_small by (unfold two63; lia); nia.
+Qed.
+
+Lemma big01 : Big0 = 0 /\ Big1 = 1.
+Proof. split; vm_compute; reflexivity. Qed.
+
+Lemma sentinel_w_nonneg s e x : 0 <= sentinel_w s e x.
+Proof.
+  destruct big01 as [B0 B1].
+  unfold sentinel_w, getWeightedSentinel, MaxInt64, MinInt64. cbv zeta.
+  split_ifs; rewrite ?B0, ?B1; lia.
+Qed.
+
+Definition sentry_ok (x : sentry) : Prop := time_ok (se_start x) /\ time_ok (se_revoke x) /\ 0 <= se_wamount x.
+
+Theorem stake_bounded epoch s e l cs rem :
+  0 <= epoch < two64 -> time_ok s -> time_ok e -> Forall sentry_ok l ->
+  stake_rewards epoch s e l = Ok (cs, rem) ->
+  exists q total, NetworkQsrRewardPerEpoch epoch = Ok q /\ StakeQsrRewardPerEpoch epoch = Ok total /\
+    total = q * StakingQsrRewardPercentage / 100 /\
+    Forall (fun c => 0 <= snd c) cs /\ zsum (map snd cs) <= total /\ total <= q.
+Proof.
+  intros Hep Hs He Hl. destruct (stake_per_epoch_ok epoch Hep) as [q [Hq [Hqr Hst]]].
+  unfold stake_rewards. rewrite Hst. cbn [bind].
+  set (total := q * StakingQsrRewardPercentage / 100).
+  pose proof qsr_percentages as Pq.
+  assert (Ht0 : 0 <= total) by (apply Z.div_pos; [apply Z.mul_nonneg_nonneg; lia | lia]).
+  assert (Htq : total <= q).
+  { unfold total. apply Z.div_le_upper_bound; [lia|]. rewrite Z.mul_comm. apply Z.mul_le_mono_nonneg_r; lia. }
+  assert (Hws : Forall (fun w => 0 <= w) (map (stake_w s e) l)).
+  { apply Forall_forall. intros w Hin. apply in_map_iff in Hin. destruct Hin as [x [<- Hin]].
+    rewrite Forall_forall in Hl. destruct (Hl x Hin) as [A [B C]]. apply stake_w_nonneg; assumption. }
+  pose proof (zsum_nonneg _ Hws) as Hc0.
+  destruct (Z.sgn (zsum (map (stake_w s e) l)) =? 0) eqn:E0; intros H; inversion H; subst cs rem; clear H;
+    exists q, total; repeat (split; [first [exact Hq | reflexivity]|]).
+  - split; [constructor|]. cbn. lia.
+  - assert (Hpos : 0 < zsum (map (stake_w s e) l)) by lia.
+    assert (Esp : map snd (map (fun x => (se_addr x, Z.quot (total * stake_w s e x) (zsum (map (stake_w s e) l)))) l)
+                  = split total (map (stake_w s e) l)).
+    { unfold split. rewrite !map_map. reflexivity. }
+    split; [|split; [|exact Htq]].
+    + apply Forall_forall. intros c Hin.
+      assert (Hin' : In (snd c) (split total (map (stake_w s e) l))) by (rewrite <- Esp; apply in_map; exact Hin).
+      pose proof (split_nonneg total _ Ht0 Hws Hpos) as Hn. rewrite Forall_forall in Hn. apply Hn. exact Hin'.
+    + rewrite Esp. apply split_bounded; assumption.
+Qed.
+
+Lemma sentinel_sum_eq (t cum : Z) (w : sent -> Z) (pr : Z * Z -> Z) (tt : Z) l :
+  (forall z q, pr (z, q) = z \/ pr (z, q) = q) ->
+  forall (f : sent -> Z * Z),
+  (forall x, pr (f x) = Z.quot (tt * w x) cum) ->
+  zsum (map (fun c => pr (snd c)) (flat_map (fun x => if Z.sgn (w x) =? 0 then [] else [(sn_addr x, f x)]) l))
+  = zsum (map (fun x => Z.quot (tt * w x) cum) l).
+Proof.
+  intros _ f Hf. induction l as [|x l IH]; [reflexivity|].
+  cbn [flat_map map]. rewrite map_app, zsum_app, zsum_cons, IH.
+  destruct (Z.sgn (w x) =? 0) eqn:E.
+  - assert (w x = 0) by lia. rewrite H, Z.mul_0_r. replace (Z.quot 0 cum) with 0 by (destruct cum; reflexivity). cbn. lia.
+  - cbn [map snd zsum fold_right]. rewrite Hf. lia.
+Qed.
+
+Theorem sentinel_bounded epoch s e l cs :
+  0 <= epoch < two64 ->
+  sentinel_rewards epoch s e l = Ok cs ->
+  exists z q tz tq, NetworkZnnRewardPerEpoch epoch = Ok z /\ NetworkQsrRewardPerEpoch epoch = Ok q /\
+    SentinelRewardForEpoch epoch = Ok (tz, tq) /\
+    tz = z * SentinelZnnRewardPercentage / 100 /\ tq = q * SentinelQsrRewardPercentage / 100 /\
+    zsum (map (fun c => fst (snd c)) cs) <= tz /\ zsum (map (fun c => snd (snd c)) cs) <= tq.
+Proof.
+  intros Hep. destruct (sentinel_for_epoch_ok epoch Hep) as [z [q [Hz [Hq [Hzr [Hqr Hs]]]]]].
+  unfold sentinel_rewards. rewrite Hs. cbn [bind fst snd].
+  set (tz := z * SentinelZnnRewardPercentage / 100). set (tq := q * SentinelQsrRewardPercentage / 100).
+  pose proof znn_percentages as Pz. pose proof qsr_percentages as Pq.
+  assert (Hz0 : 0 <= tz) by (apply Z.div_pos; [apply Z.mul_nonneg_nonneg; lia | lia]).
+  assert (Hq0 : 0 <= tq) by (apply Z.div_pos; [apply Z.mul_nonneg_nonneg; lia | lia]).
+  assert (Hws : Forall (fun w => 0 <= w) (map (sentinel_w s e) l)).
+  { apply Forall_forall. intros w Hin. apply in_map_iff in Hin. destruct Hin as [x [<- _]]. apply sentinel_w_nonneg. }
+  pose proof (zsum_nonneg _ Hws) as Hc0.
+  destruct (Z.sgn (zsum (map (sentinel_w s e) l)) =? 0) eqn:E0; intros H; inversion H; subst cs; clear H;
+    exists z, q, tz, tq; repeat (split; [first [exact Hz | exact Hq | reflexivity]|]).
+  - cbn. lia.
+  - assert (Hpos : 0 < zsum (map (sentinel_w s e) l)) by lia.
+    set (cum := zsum (map (sentinel_w s e) l)) in *.
+    split.
+    + rewrite (sentinel_sum_eq tz cum (sentinel_w s e) fst tz l (fun z q => or_introl eq_refl)
+                 (fun x => (Z.quot (tz * sentinel_w s e x) cum, Z.quot (tq * sentinel_w s e x) cum))) by (intros; reflexivity).
+      pose proof (split_bounded tz (map (sentinel_w s e) l) Hz0 Hws Hpos) as HB.
+      unfold split in HB. rewrite map_map in HB. exact HB.
+    + rewrite (sentinel_sum_eq tq cum (sentinel_w s e) snd tq l (fun z q => or_intror eq_refl)
+                 (fun x => (Z.quot (tz * sentinel_w s e x) cum, Z.quot (tq * sentinel_w s e x) cum))) by (intros; reflexivity).
+      pose proof (split_bounded tq (map (sentinel_w s e) l) Hq0 Hws Hpos) as HB.
+      unfold split in HB. rewrite map_map in HB. exact HB.
+Qed.
+
+(* liquidity (before the bridge-and-liquidity spork): the contract mints itself exactly LiquidityRewardForEpoch *)
+Lemma liquidity_share e : 0 <= e < two64 ->
+  exists z q lz lq, NetworkZnnRewardPerEpoch e = Ok z /\ NetworkQsrRewardPerEpoch e = Ok q /\
+    LiquidityRewardForEpoch e = Ok (lz, lq) /\ 0 <= lz <= z /\ 0 <= lq <= q.
+Proof.
+  intros He. destruct (emission_split e He) as [z [q [d [b [sz [sq [lz [lq [st H]]]]]]]]].
+  destruct H as [Hz [Hq [Hp [Hs [Hl [Hst [H1 [H2 [H3 [H4 [H5 [H6 [H7 [H8 H9]]]]]]]]]]]]]].
+  pose proof mpe_ok. exists z, q, lz, lq. repeat (split; [assumption|]).
+  assert (0 <= (d + b) * MomentumsPerEpoch) by (apply Z.mul_nonneg_nonneg; lia).
+  clear - H1 H2 H3 H4 H5 H6 H7 H8 H9 H0. lia.
+Qed.
+
+(* ------------------------------------------------------------------ epoch cursor *)
+
+Fixpoint zrange (a : Z) (n : nat) : list Z := match n with O => [] | S k => a :: zrange (a + 1) k end.
+
+Lemma zrange_length a n : length (zrange a n) = n.
+Proof. revert a. induction n as [|n IH]; intros a; [reflexivity|]. cbn. rewrite IH. reflexivity. Qed.
+Lemma zrange_in a n x : In x (zrange a n) <-> a <= x < a + Z.of_nat n.
+Proof.
+  revert a. induction n as [|n IH]; intros a.
+  - cbn. lia.
+  - cbn [zrange In]. rewrite IH. lia.
+Qed.
+Lemma zrange_app a n m : zrange a (n + m) = zrange a n ++ zrange (a + Z.of_nat n) m.
+Proof.
+  revert a. induction n as [|n IH]; intros a.
+  - cbn. f_equal. lia.
+  - cbn [zrange Nat.add app]. rewrite IH. f_equal. f_equal. f_equal. lia.
+Qed.
+Lemma zrange_nodup a n : NoDup (zrange a n).
+Proof.
+  revert a. induction n as [|n IH]; intros a; [constructor|].
+  cbn [zrange]. constructor; [|apply IH]. rewrite zrange_in. lia.
+Qed.
+Lemma zrange_sorted a n : StronglySorted Z.lt (zrange a n).
+Proof.
+  revert a. induction n as [|n IH]; intros a; [constructor|].
+  cbn [zrange]. constructor; [apply IH|]. apply Forall_forall. intros x Hx. rewrite zrange_in in Hx. lia.
+Qed.
+
+Lemma rtl_ok : 0 <= RewardTimeLimit < two62.
+Proof. split; [apply Z.leb_le | apply Z.ltb_lt]; vm_compute; reflexivity. Qed.
+
+(* the configuration / state is in the range where int64 time arithmetic does not wrap *)
+Definition cursor_ok (g dur last : Z) : Prop :=
+  0 <= g /\ 1 <= dur < two62 /\ -1 <= last /\ g + dur * (last + 2) + RewardTimeLimit < two63.
+
+Lemma update_due_spec g dur now last : cursor_ok g dur last ->
+  update_due g dur now last = (epoch_end g dur (last + 1) + RewardTimeLimit <=? now).
+Proof.
+  intros [Hg [Hd [Hl Hr]]]. pose proof rtl_ok as HR. unfold update_due, epoch_end, two62, two63 in *.
+  assert (0 <= dur * (last + 2)) by nia.
+  rewrite (wrapS64_small (last + 1)) by (unfold two63; nia).
+  replace (last + 1 + 1) with (last + 2) by lia.
+  rewrite wrapS64_small by (unfold two63; lia).
+  destruct (now <? g + dur * (last + 2) + RewardTimeLimit) eqn:E1;
+  destruct (g + dur * (last + 2) + RewardTimeLimit <=? now) eqn:E2; cbn [negb]; lia.
+Qed.
+
+Lemma cursor_ok_step g dur now last : cursor_ok g dur last -> now < two62 ->
+  update_due g dur now last = true -> cursor_ok g dur (last + 1) /\ wrapS 64 (last + 1) = last + 1.
+Proof.
+  intros Hok Hn Hdue. rewrite (update_due_spec _ _ _ _ Hok) in Hdue.
+  destruct Hok as [Hg [Hd [Hl Hr]]]. pose proof rtl_ok as HR. unfold epoch_end, two62, two63 in *.
+  assert (0 <= dur * (last + 2)) by nia.
+  split; [|apply wrapS64_small; unfold two63; nia].
+  unfold cursor_ok, two62, two63. repeat split; lia.
+Qed.
+
+(* one Update call: rewards exactly the epochs LastEpoch+1 .. LastEpoch+k in increasing order, every one of
+   them ended at least RewardTimeLimit before the acknowledged momentum, and stops exactly when the next
+   epoch is not yet due *)
+Lemma update_loop_spec fuel : forall g dur now last es l',
+  cursor_ok g dur last -> now < two62 ->
+  update_loop fuel g dur now last = Some (es, l') ->
+  es = zrange (last + 1) (length es) /\ l' = last + Z.of_nat (length es) /\
+  Forall (fun e => epoch_end g dur e + RewardTimeLimit <= now) es /\
+  now < epoch_end g dur (l' + 1) + RewardTimeLimit /\ cursor_ok g dur l'.
+Proof.
+  induction fuel as [|k IH]; intros g dur now last es l' Hok Hn H; [discriminate|].
+  cbn [update_loop] in H. destruct (update_due g dur now last) eqn:Hdue.
+  - destruct (cursor_ok_step _ _ _ _ Hok Hn Hdue) as [Hok' Hw]. rewrite Hw in H.
+    destruct (update_loop k g dur now (last + 1)) as [[es1 l1]|] eqn:E; [|discriminate].
+    inversion H. subst es l'. clear H.
+    destruct (IH _ _ _ _ _ _ Hok' Hn E) as [A [B [C [D F]]]].
+    rewrite (update_due_spec _ _ _ _ Hok) in Hdue.
+    cbn [length zrange]. split; [f_equal; exact A|]. split; [lia|].
+    split; [constructor; [lia|exact C]|]. split; [exact D|exact F].
+  - inversion H. subst es l'. rewrite (update_due_spec _ _ _ _ Hok) in Hdue.
+    cbn [length zrange]. split; [reflexivity|]. split; [lia|]. split; [constructor|].
+    replace (last + Z.of_nat 0) with last by lia. split; [lia|exact Hok].
+Qed.
+
+(* enough fuel always exists: the loop terminates *)
+Lemma update_loop_terminates fuel : forall g dur now last,
+  cursor_ok g dur last -> now < two62 -> Z.max 0 (now - last) < Z.of_nat fuel ->
+  update_loop fuel g dur now last <> None.
+Proof.
+  induction fuel as [|k IH]; intros g dur now last Hok Hn Hf; [lia|].
+  cbn [update_loop]. destruct (update_due g dur now last) eqn:Hdue; [|discriminate].
+  destruct (cursor_ok_step _ _ _ _ Hok Hn Hdue) as [Hok' Hw]. rewrite Hw.
+  rewrite (update_due_spec _ _ _ _ Hok) in Hdue.
+  destruct Hok as [Hg [Hd [Hl Hr]]]. pose proof rtl_ok as HR. unfold epoch_end in Hdue.
+  assert (last + 2 <= dur * (last + 2)) by nia.
+  specialize (IH g dur now (last + 1) Hok' Hn ltac:(lia)).
+  destruct (update_loop k g dur now (last + 1)) as [[es1 l1]|]; [discriminate|congruence].
+Qed.
+
+(* any history of Update calls (any momentum times): the rewarded epochs, concatenated over the whole
+   history, are LastEpoch0+1, LastEpoch0+2, ... without gap or repetition *)
+Lemma run_updates_spec fuel g dur : forall nows last es l',
+  cursor_ok g dur last -> Forall (fun now => now < two62) nows ->
+  run_updates fuel g dur nows last = Some (es, l') ->
+  es = zrange (last + 1) (length es) /\ l' = last + Z.of_nat (length es) /\ cursor_ok g dur l'.
+Proof.
+  induction nows as [|now nows IH]; intros last es l' Hok Hn H.
+  - cbn in H. inversion H. subst. cbn [length zrange]. split; [reflexivity|].
+    replace (l' + Z.of_nat 0) with l' by lia. split; [reflexivity|exact Hok].
+  - cbn [run_updates] in H. inversion Hn as [|? ? Hn1 Hn2]. subst.
+    destruct (update_loop fuel g dur now last) as [[es1 l1]|] eqn:E1; [|discriminate].
+    destruct (run_updates fuel g dur nows l1) as [[es2 l2]|] eqn:E2; [|discriminate].
+    inversion H. subst es l'. clear H.
+    destruct (update_loop_spec fuel _ _ _ _ _ _ Hok Hn1 E1) as [A [B [_ [_ Hok1]]]].
+    destruct (IH _ _ _ Hok1 Hn2 E2) as [A2 [B2 Hok2]].
+    rewrite app_length, zrange_app. split; [|split; [lia|exact Hok2]].
+    rewrite <- A. f_equal. rewrite A2 at 1. f_equal. lia.
+Qed.
+
+Lemma update_due_mono g dur now l1 l2 : cursor_ok g dur l1 -> cursor_ok g dur l2 -> l1 <= l2 ->
+  update_due g dur now l2 = true -> update_due g dur now l1 = true.
+Proof.
+  intros H1 H2 Hle. rewrite (update_due_spec _ _ _ _ H1), (update_due_spec _ _ _ _ H2).
+  destruct H1 as [Hg [Hd _]]. unfold epoch_end. intros H. apply Z.leb_le in H. apply Z.leb_le. nia.
+Qed.
+
+Lemma max_epochs_even : MaxEpochsPerUpdate = 2 * (MaxEpochsPerUpdate / 2) /\ 0 <= MaxEpochsPerUpdate / 2.
+Proof. split; [vm_compute; reflexivity | apply Z.leb_le; vm_compute; reflexivity]. Qed.
+
+(* the liquidity variant of the loop agrees with the plain loop as long as not more than
+   MaxEpochsPerUpdate/2 epochs are due in one call *)
+Lemma liquidity_loop_partial fuel : forall g dur now last j,
+  cursor_ok g dur last -> now < two62 -> 0 <= j ->
+  (MaxEpochsPerUpdate / 2 - j < 0 \/
+   (cursor_ok g dur (last + (MaxEpochsPerUpdate / 2 - j)) /\
+    update_due g dur now (last + (MaxEpochsPerUpdate / 2 - j)) = false)) ->
+  (MaxEpochsPerUpdate / 2 - j < 0 -> update_due g dur now last = false) ->
+  liquidity_loop fuel g dur now last (2 * j) = update_loop fuel g dur now last.
+Proof.
+  destruct max_epochs_even as [Hev Hh0]. set (H := MaxEpochsPerUpdate / 2) in *.
+  induction fuel as [|k IH]; intros g dur now last j Hok Hn Hj Hnd Hneg; [reflexivity|].
+  cbn [liquidity_loop update_loop]. destruct (update_due g dur now last) eqn:Hdue; cbn [negb]; [|reflexivity].
+  destruct (cursor_ok_step _ _ _ _ Hok Hn Hdue) as [Hok' Hw]. rewrite Hw.
+  assert (Hlt : j < H).
+  { destruct (Z_lt_le_dec j H) as [|Hge]; [assumption|exfalso].
+    destruct Hnd as [Hn0|[Hok2 Hnd]].
+    - specialize (Hneg Hn0). congruence.
+    - assert (Hdue2 : update_due g dur now (last + (H - j)) = true).
+      { apply (update_due_mono g dur now _ last Hok2 Hok); [lia|exact Hdue]. }
+      congruence. }
+  destruct (MaxEpochsPerUpdate <=? 2 * j) eqn:E; [lia|].
+  replace (2 * j + 2) with (2 * (j + 1)) by lia.
+  rewrite IH; [reflexivity| exact Hok' | exact Hn | lia | | intros; lia].
+  right. destruct Hnd as [Hn0|[Hok2 Hnd]]; [lia|].
+  replace (last + 1 + (H - (j + 1))) with (last + (H - j)) by lia. split; assumption.
+Qed.
+
+(* ------------------------------------------------------------------ deposits *)
+
+Lemma lookup_filter_same {A} a (ds : list (Z * A)) :
+  lookup a (filter (fun kv => negb (fst kv =? a)) ds) = None.
+Proof.
+  unfold lookup. induction ds as [|kv ds IH]; [reflexivity|]. cbn [filter].
+  destruct (fst kv =? a) eqn:E; cbn [negb]; [exact IH|]. cbn [find]. rewrite E. exact IH.
+Qed.
+Lemma lookup_filter_other {A} a b (ds : list (Z * A)) : a <> b ->
+  lookup b (filter (fun kv => negb (fst kv =? a)) ds) = lookup b ds.
+Proof.
+  intros Hne. unfold lookup. induction ds as [|kv ds IH]; [reflexivity|]. cbn [filter find].
+  destruct (fst kv =? a) eqn:E; cbn [negb].
+  - destruct (fst kv =? b) eqn:E2; [lia|exact IH].
+  - cbn [find]. destruct (fst kv =? b); [reflexivity|exact IH].
+Qed.
+
+Lemma dep_get_del_same a ds : dep_get a (dep_del a ds) = (0, 0).
+Proof. unfold dep_get, dep_del. rewrite lookup_filter_same. reflexivity. Qed.
+Lemma dep_get_del_other a b ds : a <> b -> dep_get b (dep_del a ds) = dep_get b ds.
+Proof. intros. unfold dep_get, dep_del. rewrite lookup_filter_other by assumption. reflexivity. Qed.
+Lemma dep_get_set_same a d ds : dep_get a (dep_set a d ds) = d.
+Proof. unfold dep_get, dep_set, lookup. cbn [find fst]. rewrite Z.eqb_refl. reflexivity. Qed.
+Lemma dep_get_set_other a b d ds : a <> b -> dep_get b (dep_set a d ds) = dep_get b ds.
+Proof.
+  intros Hne. unfold dep_get, dep_set. unfold lookup at 1. cbn [find fst].
+  destruct (a =? b) eqn:E; [lia|]. fold (lookup b (dep_del a ds)).
+  unfold dep_del. rewrite lookup_filter_other by assumption. reflexivity.
+Qed.
+
+Definition deps_nonneg (ds : deposits) : Prop := forall a, 0 <= fst (dep_get a ds) /\ 0 <= snd (dep_get a ds).
+
+(* CollectReward: mints exactly the deposit, deletes it; collecting again fails *)
+Theorem collect_exact ds a : deps_nonneg ds ->
+  match collect ds a with
+  | (Some ms, ds') =>
+      dep_get a ds' = (0, 0) /\
+      zsum (map snd (filter (fun m => fst m =? 0) ms)) = fst (dep_get a ds) /\
+      zsum (map snd (filter (fun m => fst m =? 1) ms)) = snd (dep_get a ds) /\
+      Forall (fun m => 0 < snd m) ms /\
+      (forall b, b <> a -> dep_get b ds' = dep_get b ds) /\
+      collect ds' a = (None, ds')
+  | (None, ds') => ds' = ds /\ dep_get a ds = (0, 0)
+  end.
+Proof.
+  intros Hnn. unfold collect. destruct (Hnn a) as [Hz Hq].
+  destruct (dep_get a ds) as [z q] eqn:Ed. cbn [fst snd] in *.
+  destruct ((Z.sgn z =? 0) && (Z.sgn q =? 0)) eqn:E0.
+  - split; [reflexivity|]. f_equal; lia.
+  - rewrite dep_get_del_same. cbn [fst snd Z.sgn Z.eqb andb].
+    repeat split.
+    + destruct (Z.sgn z =? 1) eqn:E1; destruct (Z.sgn q =? 1) eqn:E2; cbn; lia.
+    + destruct (Z.sgn z =? 1) eqn:E1; destruct (Z.sgn q =? 1) eqn:E2; cbn; lia.
+    + destruct (Z.sgn z =? 1) eqn:E1; destruct (Z.sgn q =? 1) eqn:E2; cbn; repeat constructor; cbn; lia.
+    + intros b Hb. apply dep_get_del_other. lia.
+Qed.
+
+Lemma add_reward_get ds a z q b :
+  dep_get b (add_reward ds a z q) =
+  if a =? b then (fst (dep_get a ds) + z, snd (dep_get a ds) + q) else dep_get b ds.
+Proof.
+  unfold add_reward. destruct (a =? b) eqn:E.
+  - assert (a = b) by lia. subst. apply dep_get_set_same.
+  - apply dep_get_set_other. lia.
+Qed.
+
+Definition tok_of (tok : Z) (d : Z * Z) : Z := if tok =? 0 then fst d else snd d.
+
+Lemma minted_of_app tok a m1 m2 : minted_of tok a (m1 ++ m2) = minted_of tok a m1 + minted_of tok a m2.
+Proof. unfold minted_of. rewrite map_app, zsum_app. reflexivity. Qed.
+
+Lemma collect_minted ds a ms ds' b tok : deps_nonneg ds -> (tok = 0 \/ tok = 1) ->
+  collect ds a = (Some ms, ds') ->
+  minted_of tok b (map (fun m => (a, m)) ms) = if a =? b then tok_of tok (dep_get a ds) else 0.
+Proof.
+  intros Hnn Ht. unfold collect. destruct (Hnn a) as [Hz Hq].
+  destruct (dep_get a ds) as [z q]. cbn [fst snd] in *.
+  destruct ((Z.sgn z =? 0) && (Z.sgn q =? 0)); [discriminate|].
+  intros H. inversion H. subst. clear H. unfold minted_of, tok_of. cbn [fst snd].
+  destruct (a =? b) eqn:E; destruct Ht; subst tok;
+  destruct (Z.sgn z =? 1) eqn:E1; destruct (Z.sgn q =? 1) eqn:E2; cbn [app map fst snd zsum fold_right];
+  rewrite ?E; cbn [andb Z.eqb Pos.eqb]; lia.
+Qed.
+
+(* conservation over any history of credits and collects: what was minted to an address plus what is still
+   deposited for it equals what was credited to it (per token) — nothing is paid twice, nothing is lost *)
+Theorem rewards_conserved tok : tok = 0 \/ tok = 1 -> forall ops ds minted ds' minted' a,
+  deps_nonneg ds ->
+  Forall (fun o => match o with Credit _ z q => 0 <= z /\ 0 <= q | Collect _ => True end) ops ->
+  run_rops ops ds minted = (ds', minted') ->
+  deps_nonneg ds' /\
+  minted_of tok a minted' + tok_of tok (dep_get a ds') =
+  minted_of tok a minted + tok_of tok (dep_get a ds) + credited tok a ops.
+Proof.
+  intros Ht. induction ops as [|o ops IH]; intros ds minted ds' minted' a Hnn Hops H.
+  - cbn in H. inversion H. subst. split; [exact Hnn|]. unfold credited. cbn. lia.
+  - inversion Hops as [|? ? Ho Hops']. subst. destruct o as [b z q|b]; cbn [run_rops] in H.
+    + assert (Hnn' : deps_nonneg (add_reward ds b z q)).
+      { intros c. rewrite add_reward_get. destruct (b =? c); [|apply Hnn]. destruct (Hnn b). cbn [fst snd]. lia. }
+      destruct (IH _ _ _ _ a Hnn' Hops' H) as [A B]. split; [exact A|].
+      rewrite B, add_reward_get. unfold credited. cbn [map]. rewrite zsum_cons. fold (credited tok a ops).
+      unfold tok_of. destruct (b =? a) eqn:E.
+      * assert (b = a) by lia. subst b. destruct Ht; subst tok; cbn [fst snd Z.eqb]; lia.
+      * lia.
+    + destruct (collect ds b) as [[ms|] ds1] eqn:Ec.
+      * pose proof (collect_exact ds b Hnn) as Hce. rewrite Ec in Hce.
+        destruct Hce as [C1 [_ [_ [_ [C5 _]]]]].
+        assert (Hnn' : deps_nonneg ds1).
+        { intros c. destruct (Z.eq_dec c b) as [->|Hne]; [rewrite C1; cbn; lia|]. rewrite C5 by exact Hne. apply Hnn. }
+        destruct (IH _ _ _ _ a Hnn' Hops' H) as [A B]. split; [exact A|].
+        rewrite B, minted_of_app, (collect_minted ds b ms ds1 a tok Hnn Ht Ec).
+        unfold credited. cbn [map]. rewrite zsum_cons. fold (credited tok a ops).
+        destruct (b =? a) eqn:E.
+        -- assert (b = a) by lia. subst b. rewrite C1. unfold tok_of at 2. cbn [fst snd]. destruct (tok =? 0); lia.
+        -- rewrite C5 by lia. lia.
+      * pose proof (collect_exact ds b Hnn) as Hce. rewrite Ec in Hce. destruct Hce as [-> _].
+        destruct (IH _ _ _ _ a Hnn Hops' H) as [A B]. split; [exact A|].
+        rewrite B. unfold credited. cbn [map]. rewrite zsum_cons. fold (credited tok a ops). lia.
+Qed.
+
+(* ------------------------------------------------------------------ finding: updateLiquidityRewards skips an epoch.
+   With more than MaxEpochsPerUpdate/2 epochs due, the loop stores LastEpoch+1 (inside
+   checkAndPerformUpdateEpoch) and only then notices len(result) >= MaxEpochsPerUpdate and returns: the
+   cursor has passed an epoch for which no reward was minted.  Witness: genesis 0, 1-second epochs,
+   LastEpoch = -1, now = RewardTimeLimit + 12. *)
+Lemma liquidity_cursor_refuted :
+  exists g dur now last es l',
+    cursor_ok g dur last /\ now < two62 /\
+    liquidity_loop 100 g dur now last 0 = Some (es, l') /\
+    l' <> last + Z.of_nat (length es).
+Proof.
+  exists 0, 1, (RewardTimeLimit + 12), (-1).
+  eexists. eexists. split; [|split; [|split]].
+  - unfold cursor_ok, two62, two63. vm_compute. repeat split; discriminate.
+  - vm_compute. reflexivity.
+  - vm_compute. reflexivity.
+  - vm_compute. discriminate.
+Qed.
+
+Lemma liquidity_cursor_partial fuel g dur now last es l' :
+  cursor_ok g dur last -> now < two62 ->
+  cursor_ok g dur (last + MaxEpochsPerUpdate / 2) ->
+  update_due g dur now (last + MaxEpochsPerUpdate / 2) = false ->
+  liquidity_loop fuel g dur now last 0 = Some (es, l') ->
+  es = zrange (last + 1) (length es) /\ l' = last + Z.of_nat (length es) /\
+  Forall (fun e => epoch_end g dur e + RewardTimeLimit <= now) es /\
+  now < epoch_end g dur (l' + 1) + RewardTimeLimit.
+Proof.
+  intros Hok Hn Hok2 Hnd H. destruct max_epochs_even as [_ Hh0].
+  change 0 with (2 * 0) in H at 1.
+  rewrite (liquidity_loop_partial fuel g dur now last 0 Hok Hn ltac:(lia)) in H.
+  - destruct (update_loop_spec fuel _ _ _ _ _ _ Hok Hn H) as [A [B [C [D _]]]]. repeat split; assumption.
+  - right. rewrite Z.sub_0_r. split; assumption.
+  - intros. lia.
 Qed.
